@@ -1262,6 +1262,7 @@ func (fr *Frame) atMapUpdateAsserts(ins *ssa.MapUpdate, k, v Term, st *State) {
 			}
 			same = fmt.Sprintf("(= %s %s)", mt.S, fr.val(ins.Map).S)
 		}
+		vc.atMatched[at] = true
 		k.T = ins.Key.Type()
 		v.T = ins.Value.Type()
 		ctx.env["$key"] = k
